@@ -9,6 +9,7 @@ import re
 
 from ..mir import deep_strip, tstr, strip_generics, canon, subterms, is_call
 from .. import effects
+from ..checks import error_passthrough
 from ..pat import P, K, V, C, F, AGG, OKP, BIN, CLO, TUP, FN, ANY, ALT, match, closure_ret, unref
 
 CONFIGS = ("FULL", "XEN")
@@ -99,8 +100,8 @@ def rule_try_access(ctx, prog, eff):
         td = deep_strip(t)
         facts = b.facts_at(pos)
         var, v = err_variant(td)
-        if td == ct:
-            seen["passthrough"] = True  # `e => return e`
+        if td == ct or error_passthrough(td) == ct:
+            seen["passthrough"] = True  # `e => return e` / `f(..)?`
             continue
         if var == "CallbackOutOfRange":
             seen[var] = True
